@@ -15,3 +15,4 @@ open RV.C13
 #print axioms aggregate_reads
 #print axioms bindings_idempotent
 #print axioms read_frame_attributes
+#print axioms transitive_walk
